@@ -64,11 +64,9 @@ class RemotePickler36(pickle.Pickler):
             newobj = copyreg.__newobj__
             args = args or tuple()
             newargs = (type(obj), *args)
-        elif args:
+        else: # keyword arguments, with or without positional ones (args is a tuple here: __getnewargs_ex__ was used)
             newobj = copyreg.__newobj_ex__
             newargs = (type(obj), args, kwargs)
-        else:
-            raise RuntimeError('Internal bad call')
 
         # _PyObject_GetState from https://github.com/python/cpython/blob/1b55b65638254aa78b005fbf0b71fb02499f1852/Objects/typeobject.c#L4207
         state = obj.__getstate__(remote=self._remote)
